@@ -21,11 +21,13 @@ class Cfg:
         self.floats = floats
         self.bytes = "sym"
         self.npool = 99  # use only the first npool entries of each pool
+        self.tuples = False  # build array data as tuples (a tuple is a sequence; hints only with tuple notation on)
 
     def but(self, **kw):
         c = Cfg(self.K, self.SL, self.depth, self.ints, self.strs, self.floats, self.hints)
         c.bytes = self.bytes
         c.npool = self.npool
+        c.tuples = self.tuples
         for k, v in kw.items():
             setattr(c, k, v)
         return c
@@ -200,7 +202,8 @@ def _build(node, names, v, cfg, depth=None, hints=None, mut=None):
     if k == "array":
         if len(v) > cfg.K:
             raise OutOfDomain()
-        return [_nodel(build(node["items"], names, x, cfg, depth, hints, mut)) for x in v]
+        items = [_nodel(build(node["items"], names, x, cfg, depth, hints, mut)) for x in v]
+        return tuple(items) if cfg.tuples else items
     if k == "map":
         if len(v) > cfg.K:
             raise OutOfDomain()
@@ -210,6 +213,16 @@ def _build(node, names, v, cfg, depth=None, hints=None, mut=None):
         if not (0 <= i < len(node["branches"])):
             raise OutOfDomain()
         val = _nodel(build(node["branches"][i], names, v[1 + i], cfg, depth, hints, mut))
+        if mut is None:
+            # data for which the property's branch rule is silent (conforming to a record branch and to a
+            # non-record branch at once) are outside every harness's domain
+            from .oracles import codec as _codec
+            try:
+                _codec.choose_branch(node, val, names, tuple_notation=not cfg.tuples)
+            except _codec.Silent:
+                raise OutOfDomain()
+            except _codec.SpecError:
+                pass
         if hints is None:
             return val
         h = hints.next()
